@@ -11,7 +11,7 @@ use std::collections::BTreeMap;
 use std::sync::Arc;
 
 #[derive(Clone, Debug)]
-enum Op { Len, IsEmpty, Get(usize), IterNew, Next, SizeHint, Collect, Bulk }
+enum Op { Len, IsEmpty, Get(usize), IterNew, Next, SizeHint, Collect, Bulk, Nth(usize), StepBy(usize), Count, Last }
 
 #[derive(Clone, Debug, PartialEq)]
 enum Obs {
@@ -24,6 +24,7 @@ fn op_coq(o: &Op) -> String {
         Op::Get(i) => format!("OGet {}", i), Op::IterNew => "OIterNew".into(),
         Op::Next => "ONext".into(), Op::SizeHint => "OSizeHint".into(),
         Op::Collect => "OCollect".into(), Op::Bulk => "OBulk".into(),
+        Op::Nth(k) => format!("ONth {}", k), Op::StepBy(k) => format!("OStepBy {}", k), Op::Count => "OCount".into(), Op::Last => "OLast".into(),
     }
 }
 fn obs_coq(o: &Obs) -> String {
@@ -101,7 +102,8 @@ pub fn run(ctx: &mut Ctx) {
         let nops = rng.below(13);
         let mut ops = vec![];
         for _ in 0..nops {
-            let o = match rng.below(12) {
+            let o = match rng.below(16) {
+                12 => Op::Nth(rng.below(4)), 13 => Op::StepBy(rng.below(3)), 14 => Op::Count, 15 => Op::Last,
                 0 => Op::Len, 1 => Op::IsEmpty,
                 2 | 3 => Op::Get(rng.below(base_len + 3)),
                 4 => Op::IterNew, 5 | 6 | 7 => Op::Next, 8 | 9 => Op::SizeHint, 10 => Op::Collect, _ => Op::Bulk,
@@ -167,10 +169,23 @@ pub fn run(ctx: &mut Ctx) {
                     Op::Collect => {
                         let mut v = vec![];
                         let mut k = consumed;
-                        for item in &mut it { v.push(read(item)?.unwrap_or(k)); k += 1; }
+                        for item in &mut it { v.push(read(item)?.unwrap_or(k)); k += 1; if v.len() > de.len() + 2 { oracle_fail.push(("iterator_yields_more_than_len".into(), format!("collect produced more than {} items", de.len()))); break; } }
                         consumed = k;
                         Obs::Items(v)
                     }
+                    Op::Nth(k) => match it.nth(*k) {
+                        None => { consumed = de.len().max(consumed); Obs::Item(None) }
+                        Some(item) => { let r = read(item)?.unwrap_or(consumed + k); consumed += k + 1; Obs::Item(Some(r)) }
+                    },
+                    Op::StepBy(k) => {
+                        let mut v = vec![];
+                        let mut pos = consumed;
+                        for item in (&mut it).step_by(k + 1) { v.push(read(item)?.unwrap_or(pos)); pos += k + 1; if v.len() > de.len() + 2 { oracle_fail.push(("iterator_yields_more_than_len".into(), format!("step_by({}) produced more than {} items", k + 1, de.len()))); break; } }
+                        consumed = de.len().max(consumed);
+                        Obs::Items(v)
+                    }
+                    Op::Count => { let c = (&mut it).take(de.len() + 3).count(); consumed = de.len().max(consumed); Obs::Nat(c) }
+                    Op::Last => { let l = (&mut it).take(de.len() + 3).last(); consumed = de.len().max(consumed); match l { None => Obs::Item(None), Some(item) => Obs::Item(Some(read(item)?.unwrap_or(de.len() - 1))) } }
                     Op::Bulk => {
                         let recs = Vec::<Rec>::deserialize(mk()?).map_err(|e| e.to_string())?;
                         let mut v = vec![];
@@ -200,7 +215,8 @@ pub fn run(ctx: &mut Ctx) {
         for o in &ops {
             match o {
                 Op::Next => seen_next = true,
-                Op::SizeHint | Op::Collect | Op::Bulk | Op::Get(_) if seen_next => nontrivial = true,
+                Op::Nth(_) | Op::StepBy(_) => { if seen_next { nontrivial = true; } seen_next = true; }
+                Op::SizeHint | Op::Collect | Op::Bulk | Op::Get(_) | Op::Count | Op::Last if seen_next => nontrivial = true,
                 _ => {}
             }
             ctx.count(&format!("op:{}", op_coq(o).split(' ').next().unwrap()));
